@@ -178,6 +178,10 @@ def generate(seed, tier, enlarged=False):
                   'ups': [{'$branch': {'b': {'$branch': {'a': {'$dict': {'c': {'d': {'a': 1}}}}}}}},
                           {'$branch': {'b': {'$multi': [{'$branch': {'a': {'$dict': {'c': {'d': {'b': 2}}}}}},
                                                         {'$branch': {'a': {'$dict': {'c': {'e': 3}}}}}]}}}]})
+    # corpus: a batch (_multi_update) on a nonnegative_accumulate variable that dips below zero on the way
+    cases.append({'kind': 'apply', 'store': {'a': {'$leaf': {'updater': 'nonnegative_accumulate', 'kind': 'int', 'units': None,
+                                                             'default': 0, 'value': 4}}},
+                  'ups': [{'$branch': {'a': {'$multi': [-10, 2, 3]}}}, {'$branch': {'a': {'$multi': [1, -9, 4]}}}]})
     # units normalisation when the value was installed (set_value / initial state) in another unit than the
     # declared one (oracle only: magnitudes chosen so that the float arithmetic is exact)
     for i in range(n // 30):
